@@ -1005,6 +1005,9 @@ func (c *simCluster) deliver(i int) {
 				}
 			}
 		}
+		if dst.cur == Follower && dst.r.timer.active && c.rnd.Intn(4) == 0 {
+			dst.r.timer.stop() // whether the handler re-arms the election timer then shows in the state
+		}
 		wire, lit, cut := m.wire, m.lit, false
 		if m.kind == rpcAppendEntries && !m.dup && (c.abs == nil || absCutEnabled) && c.rnd.Intn(14) == 0 {
 			// the connection breaks inside the request
